@@ -662,6 +662,14 @@ def r3_stack_discipline(rule, root=None):
                 if variant is None:
                     continue
                 _d, p = _pushes_pops(arm["body"])
+                if not p and variant == "RemapAxes":
+                    from . import C13 as C13_
+
+                    order = C13_.remap_axes_pop_order(arm)
+                    if order is not None:
+                        # the k-th pop becomes the component it is stored in
+                        inv = {pop_i: "xyz"[pos] for pos, pop_i in enumerate(order)}
+                        p = [inv.get(k_) for k_ in range(3)]
                 if p:
                     pops[variant] = (p, arm)
         for v in sorted(set(pushes) | set(pops)):
@@ -1044,7 +1052,7 @@ def run(ctx):
     ctx.guarded(r, r3_stack_discipline)
     from . import C13 as C13_
 
-    r = ctx.rule("R3c", "the importer's identity-keyed cache is keyed by (frame, node address), reused only for operator nodes, and starts empty in every call (addresses are only meaningful while the imported tree is alive)", 5)
+    r = ctx.rule("R3c", "the importer's identity-keyed cache is keyed by (frame, node address), reused only for operator nodes, and starts empty in every call (addresses are only meaningful while the imported tree is alive)", 4)
     ctx.guarded(r, C13_.r4_cache_keys)
     r = ctx.rule("R6", "TreeOp eq / hash cover the same payload, walk the same children; drop is iterative", 32)
     ctx.guarded(r, r6_tree_eq_hash_drop)
